@@ -2,6 +2,9 @@
   Families of area toast (C08, and the malformed family of C10):
     toastptr   ParseTOASTPointer / IsTOASTPointer on pointer encodings (all boundary values, random)
     toastrel   relation file → ReadTOASTTable → ReassembleTOAST / TOASTReader.ReadValue, every value of the relation
+               (pages laid out as deletes + VACUUM leave them: `Spec.Toast.toastPageH`, non-NORMAL pointers before, between
+               and behind the chunks' pointers — fixed cases `holeRels`, random `Gen.Toast.genRelH`; also in toastrel2,
+               toaststats, toastrepeat, toastties, toastunhinted)
     pglz, lz4  forced-form streams through ReassembleTOAST with a compressed pointer (chunks handed over directly)
     toaststats GetTOASTVerboseInfo tallies (Values in the order returned)
     toastrepeat GetTOASTVerboseInfo 20 times, byte-identical JSON (C11)
@@ -598,6 +601,8 @@ value that has a row the TOAST snapshot sees (`Spec.Toast.toastVisible`).  The r
 every stored tuple is re-stamped: rows the generator made live get a state from `visibleStates`, the others (dead chunk
 versions) one from `invisibleStates`; one more dead version of the first value's first chunk is put in front.
 Deterministic prefix: each boundary relation with ALL its live rows in one state, for every visible state.
+then every relation of `holeRels` (pages with LP_UNUSED / LP_DEAD / LP_REDIRECT pointers) in one visible state each; the random
+relations come from `genRelH` (holes on most pages).
 Same arguments and handler as `toastrel`. -/
 
 /-- (infomask, t_xmin, t_xmax) the TOAST snapshot sees: nothing hinted (the state until the first VACUUM), hinted
